@@ -297,6 +297,9 @@ func runC14(c *Ctx) error {
 	if err := parkedBroadcastScenario(c); err != nil {
 		return err
 	}
+	if err := sharedBroadcastFrameScenario(c); err != nil {
+		return err
+	}
 	// ---- (d) pooled windows: state and behaviour of every new connection of a long-lived server
 	freshWindowScenario(c, 24)
 	return nil
@@ -374,6 +377,74 @@ func parkedBroadcastScenario(c *Ctx) error {
 				}
 			}
 			c.count(tag, true, "kind=broadcast-parked")
+		}
+	}
+	return nil
+}
+
+// sharedBroadcastFrameScenario: one Broadcaster serves two connections of the same role; the first connection's transport
+// has accepted half of the frame when the second connection's job runs to completion, then takes the rest.  Both wires
+// must hold exactly one frame that decodes (unmask with the key in its own header, inflate) to the broadcast payload.
+func sharedBroadcastFrameScenario(c *Ctx) error {
+	for _, server := range []bool{false, true} {
+		for _, pmd := range []bool{false, true} {
+			for _, n := range []int{100, 300, 70000} {
+				spec := connSpec{Server: server, PMD: pmd}
+				ca, ta, err := spec.open(&recHandler{})
+				if err != nil {
+					return err
+				}
+				cb, tb, err := spec.open(&recHandler{})
+				if err != nil {
+					return err
+				}
+				gate := make(chan struct{}, 4)
+				entered := make(chan int, 4)
+				ta.mu.Lock()
+				ta.gate, ta.gateEntered, ta.lateCopy = gate, entered, true
+				ta.mu.Unlock()
+				p := textPayload(c, n, nil)
+				b := gws.NewBroadcaster(gws.OpcodeText, p)
+				_ = b.Broadcast(ca)
+				select {
+				case <-entered:
+				case <-time.After(5 * time.Second):
+				}
+				_ = b.Broadcast(cb)
+				bdone := make(chan struct{})
+				cb.Async(func() { close(bdone) })
+				select {
+				case <-bdone:
+				case <-time.After(5 * time.Second):
+				}
+				gate <- struct{}{}
+				adone := make(chan struct{})
+				ca.Async(func() { close(adone) })
+				select {
+				case <-adone:
+				case <-time.After(5 * time.Second):
+				}
+				_ = b.Close()
+				tag := fmt.Sprintf("one broadcast frame, two %s connections, overlapping transport writes pmd=%v len=%d", roleName(server), pmd, n)
+				for who, tp := range map[string]*memConn{"first (slow transport)": ta, "second": tb} {
+					fs, rest, perr := parseFrames(tp.written())
+					replay := map[string]any{"tag": tag, "connection": who, "wire_prefix": fmt.Sprintf("%x", head(tp.written(), 48))}
+					ok := perr == nil && len(rest) == 0 && len(fs) == 1 && fs[0].Opcode == 1 && fs[0].Masked == !server
+					if ok {
+						got := fs[0].Payload
+						if fs[0].Rsv1 {
+							out, ierr := rfc7692Inflate(got, nil)
+							ok = ierr == nil
+							got = out
+						}
+						ok = ok && bytes.Equal(got, p)
+					}
+					if !ok {
+						c.oracleFail(fmt.Sprintf("the frame on the %s connection does not decode to the broadcast payload [%s]", who, tag), "broadcast-shared-frame", replay)
+					}
+				}
+				c.count(tag, true, "kind=broadcast-shared-frame")
+			}
 		}
 	}
 	return nil
